@@ -931,6 +931,7 @@ class Noise(EnvironmentFilter):
             return
 
         is_callable = callable(first.get('rewards'))
+        is_callable_feedbacks = callable(first.get('feedbacks'))
 
         for interaction in interactions:
 
@@ -945,6 +946,12 @@ class Noise(EnvironmentFilter):
                 actions = new['actions']
                 noisy_actions = [ self._noises(a, rng, self._action_noise) for a in actions ]
                 new['actions'] = noisy_actions
+
+                if 'action' in new and new['action'] in actions:
+                    new['action'] = noisy_actions[actions.index(new['action'])]
+
+                if 'feedbacks' in new and is_callable_feedbacks:
+                    new['feedbacks'] = DiscreteReward(noisy_actions, list(map(new['feedbacks'],actions)))
 
             if 'rewards' in new:
                 rewards = new['rewards']
